@@ -466,14 +466,18 @@ def run(ctx, rep):
     rng = ctx.sub_rng('random')
     for chunk in range(0, n_random, 2500):
         check_cases(ctx, rep, [random_case(rng) for _ in range(min(2500, n_random - chunk))], 'random')
-    if not quick:
-        rng3 = ctx.sub_rng('core3')
+    if not quick and ctx.scale == 1:
         alpha = core_alphabet()
-        triples = [{'flavour': rng3.choice(['container', 'container', 'model']), 'strict': rng3.random() < 0.3,
-                    'span': CORE_SPAN, 'ops': CORE_SETUP + [rng3.choice(alpha) for _ in range(3)]}
-                   for _ in range(30000 * ctx.scale)]
-        for chunk in range(0, len(triples), 2500):
-            check_cases(ctx, rep, triples[chunk:chunk + 2500], 'core3-sampled')
+        n3 = 0
+        batch = []
+        for seq in itertools.product(alpha, repeat=3):     # every history of length 3 (non-strict start)
+            batch.append({'flavour': 'container', 'strict': False, 'span': CORE_SPAN, 'ops': CORE_SETUP + list(seq)})
+            n3 += 1
+            if len(batch) == 2500:
+                check_cases(ctx, rep, batch, 'core3')
+                batch = []
+        check_cases(ctx, rep, batch, 'core3')
+        rep.notes.append(f'exhaustive length-3 histories over the reduced alphabet: {n3}')
     rep.exhaustive = False
     rep.notes.append(f'exhaustive core: {len(core)} histories (setup + every sequence of length <= 2 over '
                      f'{len(core_alphabet())} operations, strict and non-strict); random histories: {n_random}')
